@@ -158,6 +158,15 @@ def fetch_reply(payload, with_payload=True):
     return reply
 
 
+def payloadless_reply(output_path, size):
+    """STATUS:OK without a body, naming a file on the client's host (what a daemon answers when it wrote the file itself)."""
+    def reply(fields):
+        if fields.get("COMMAND") != "FETCH":
+            return b"STATUS:ERROR\nCODE:ERR_UNSUPPORTED_COMMAND\nMESSAGE:scripted endpoint\n\n", b""
+        return ("STATUS:OK\nCODE:OK_FETCH\nSIZE:%d\nOUTPUT:%s\n\n" % (size, output_path)).encode(), b""
+    return reply
+
+
 def mtool(ctx, args, timeout=30):
     exe = runner.exe_path(ctx["bdir"], "mtool")
     env = san_env(ctx["rundir"], "mtool")
@@ -213,7 +222,10 @@ def c30(ctx):
                 want_hash = hashlib.sha256(payload).hexdigest()
                 pfile = os.path.join(work, "payload.bin")
                 open(pfile, "wb").write(payload)
-                for vname, vbytes in variants(rng, payload).items():
+                vs = variants(rng, payload)
+                if path in ("control-hint", "fallback", "local-daemon"):
+                    vs["payloadless-output-names-other-file"] = None   # no body at all; OUTPUT names an existing file with other bytes
+                for vname, vbytes in vs.items():
                     case += 1
                     tag = "c30.%d" % case
                     outdir = os.path.join(work, "out%d" % case)
@@ -226,7 +238,12 @@ def c30(ctx):
                     args = ["--yes"]
                     try:
                         if path in ("control-hint", "fallback", "local-daemon"):
-                            scripted = ScriptedControl(fetch_reply(vbytes))
+                            if vbytes is None:
+                                decoy = os.path.join(work, "decoy%d.bin" % case)
+                                open(decoy, "wb").write(bytes((b ^ 0x33) for b in payload) + b"decoy")
+                                scripted = ScriptedControl(payloadless_reply(decoy, len(payload)))
+                            else:
+                                scripted = ScriptedControl(fetch_reply(vbytes))
                             margs = ["make", "--payload", pfile, "--uri-out", uri_file]
                             if path == "control-hint":
                                 margs += ["--hint", "control,control,127.0.0.1:%d,0" % scripted.port]
@@ -298,7 +315,10 @@ def c30(ctx):
 # --------------------------------------------------------------------------- C31 (CLI)
 HOSTILE_NAMES = [b"../../etc/passwd", b"..\\..\\windows\\x", b"a/b/c", b"/abs/path", b"C:\\x\\y", b".", b"..", b"...", b" ", b"", b"./", b"../", b"foo/", b"foo/..", b"a\nb", b"a\rb",
                  b"nul\x01l", b".\x01.", b"\x01..", b"..\x7f", b".\x7f.", b"x:y", b"a*b?c", b"\"q\"", b"<a>|b", b"normal.txt", b"..a", b"a..", b"~", b"-rf", b"\xff\xfe.bin", b"\xc3\x28",
-                 b"....//....//x", b"..././x", b"sub/../../../x", b"\\\\server\\share\\x", b"\x00", b"a\x00b", b".hidden", b"con", b"x" * 300, b"../" * 50 + b"x", b"." * 300]
+                 b"....//....//x", b"..././x", b"sub/../../../x", b"\\\\server\\share\\x", b"\x00", b"a\x00b", b".hidden", b"con", b"x" * 300, b"../" * 50 + b"x", b"." * 300,
+                 # overlong UTF-8 spellings of '/', '\\' and '.', and other ill-formed sequences a "normalising" step might decode
+                 b"..\xc0\xaf..\xc0\xafescape.txt", b"\xe0\x80\xaf", b"a\xc1\x9cb", b"\xc0\xae\xc0\xae", b"\xc0\xae\xc0\xae\xc0\xafx", b"..\xe0\x80\xaf..\xe0\x80\xafy",
+                 b"\xf0\x80\x80\xaf", b"\xed\xa0\x80", b"a\xc0\x80b", b"\xc0\x8a"]
 
 
 def safe_name(name):
